@@ -58,6 +58,8 @@ void resetAll()
 std::string showC(const Cont& c)
 {
     std::string o = std::to_string(c.NumObjects()) + " " + std::to_string(c.MaxObjects()) + (c.objlist ? " buf" : " null");
+    if (c.size() != c.NumObjects() || c.begin() != c.Data() || c.end() != c.Data() + c.NumObjects() || c.data() != c.objlist)
+        o += " !stl-accessors-disagree";
     if (c.objlist) for (size_t i = 0; i < c.NumObjects(); ++i) {
         const Elem* e = c.objlist + i;
         o += ' ';
@@ -97,7 +99,10 @@ int main()
         std::string ret = "-";
         bool ok = true, ub = false;
         if (op == "add" && n.size() == 2) {
-            Elem tmp((long)n[1]); size_t r = 0; charged([&] { r = c.AddObject(tmp); }); ret = std::to_string(r);
+            // even values go through the STL-style alias
+            Elem tmp((long)n[1]); size_t r = 0;
+            if (n[1] % 2 == 0) charged([&] { c.push_back(tmp); r = c.size(); }); else charged([&] { r = c.AddObject(tmp); });
+            ret = std::to_string(r);
         } else if (op == "adddef" && n.size() == 1) {
             size_t r = 0; charged([&] { r = c.AddObject(); }); ret = std::to_string(r);
         } else if (op == "new" && n.size() == 2) {
@@ -132,13 +137,13 @@ int main()
         } else if (op == "has" && n.size() == 2) {
             Elem tmp((long)n[1]); ret = c.ObjectInList(tmp) ? "true" : "false";
         } else if (op == "resize" && n.size() == 2) {
-            charged([&] { c.Resize(n[1]); });
+            if (n[1] % 2) charged([&] { c.reserve(n[1]); }); else charged([&] { c.Resize(n[1]); });
         } else if (op == "setnum" && n.size() == 2) {
-            charged([&] { c.SetNumObjects(n[1]); });
+            if (n[1] % 2) charged([&] { c.resize(n[1]); }); else charged([&] { c.SetNumObjects(n[1]); });
         } else if (op == "shrink" && n.size() == 1) {
-            charged([&] { c.Shrink(); });
+            if (c.NumObjects() % 2) charged([&] { c.shrink_to_fit(); }); else charged([&] { c.Shrink(); });
         } else if (op == "clear" && n.size() == 1) {
-            charged([&] { c.ClearObjectList(); });
+            if (c.NumObjects() % 2) charged([&] { c.clear(); }); else charged([&] { c.ClearObjectList(); });
         } else if (op == "free" && n.size() == 1) {
             charged([&] { c.FreeObjectList(); });
         } else if ((op == "copy" || op == "move" || op == "cctor" || op == "mctor") && n.size() == 2 && n[1] <= 1) {
